@@ -295,7 +295,6 @@ func ReportKnown(pid, key string) {
 	knownOnce.Do(loadKnown)
 	for _, f := range known {
 		if f.Property == pid && f.Key == key && f.Status == "open" {
-			fmt.Printf("KNOWN-FINDING: property=%s %s: %s\n", pid, key, f.What)
 			mu.Lock()
 			r := rec(pid)
 			dup := false
@@ -308,6 +307,9 @@ func ReportKnown(pid, key string) {
 				r.Known = append(r.Known, key)
 			}
 			mu.Unlock()
+			if !dup {
+				fmt.Printf("KNOWN-FINDING: property=%s %s: %s\n", pid, key, f.What)
+			}
 			return
 		}
 	}
